@@ -45,10 +45,7 @@ def validate_tracklets(
 
     # Validate each tracklet.
     for t_id, t_nodes in tracklet_to_nodes.items():
-        # by definition, a tracklet
-        if len(t_nodes) < 2:
-            continue
-
+        # Single-node tracklets are validated too: they must not be extendable.
         # Gets a subgraph for the current tracklet.
         S = cast("nx.DiGraph[int]", G.subgraph(t_nodes))
 
@@ -57,6 +54,13 @@ def validate_tracklets(
         max_out_degree = max((d for _, d in S.out_degree), default=0)
 
         if max_in_degree > 1 or max_out_degree > 1:
+            errors.append(f"Tracklet {t_id}: Invalid path structure (branch or merge detected).")
+            continue
+
+        # Check - no branch or merge at an edge of the tracklet: every edge inside a tracklet
+        # must be the only edge leaving its source and the only edge entering its target
+        # in the whole graph, otherwise the tracklet runs through a division or merge point.
+        if any(G.out_degree(u) != 1 or G.in_degree(v) != 1 for u, v in S.edges):  # pyright: ignore
             errors.append(f"Tracklet {t_id}: Invalid path structure (branch or merge detected).")
             continue
 
